@@ -438,6 +438,14 @@ class SymRat:
         return E().branch(self.num != 0)
 
     # conversions (exact)
+    def __floordiv__(self, o):
+        """floor(self / o) for a positive int divisor (Python gives a float for float // int; the integral value is what matters)"""
+        if isinstance(o, SymInt):
+            o = concretise(o, "divisor")
+        if isinstance(o, int) and not isinstance(o, bool) and o > 0:
+            return (self / o).__floor__()
+        raise Unsupported("SymRat // %r" % (o,))
+
     def _qr(self):
         if self.den == 1:
             return self.num, z3.IntVal(0)
